@@ -30,20 +30,28 @@ ASSUMPTIONS = ['all three clauses are judged for prefixes inside the territory t
 RULE = RULE + "; plays that leave the model's territory are continued for 30 calls and judged on the log replay (in full) and on state / heights / cards / bests of the card round trip"
 
 
+def _h(h):
+    """A height as the centimetre figure it denotes (a float 2.1, a Decimal('2.10') and the card text '2.10' are the same bar)."""
+    try:
+        return '%.2f' % round(float(h), 2)
+    except Exception:
+        return str(h)
+
+
 def snap(c, with_trials=True):
     js = sorted(c.jumpers, key=lambda j: str(j.bib))
     s = {
         'state': c.state,
-        'heights': [str(h) for h in c.heights],
+        'heights': [_h(h) for h in c.heights],
         # raw cards: a trailing empty cell is a difference the log replay must reproduce too (only the card
         # round trip, which drops pass marks, strips them - see no_pass)
         # bibs as text: a card is text, so a number bib comes back from an import as its digits
         'cards': {str(j.bib): list(j.attempts_by_height) for j in js},
-        'bests': {str(j.bib): str(j.highest_cleared) for j in js},
+        'bests': {str(j.bib): _h(j.highest_cleared) for j in js},
         'places': {str(j.bib): j.place for j in js},
     }
     if with_trials:
-        s['trials'] = [[str(t[0]), str(t[1]), t[2]] for t in c.trials]
+        s['trials'] = [[str(t[0]), _h(t[1]), t[2]] for t in c.trials]
     return s
 
 
@@ -64,7 +72,7 @@ def build(case):
     c = hjimpl.new_comp()
     intb = any(isinstance(b, int) for b in case.get('bibs', ()))
     for raw in case['calls']:
-        hjimpl.apply(c, hjsearch.dec(raw, intb))
+        hjimpl.apply(c, hjsearch.dec(raw, intb), bool(case.get('float_heights')))
     return c
 
 
@@ -233,7 +241,7 @@ def nontrivial(c):
     return c.state in ('jumpoff', 'drawn') or any(getattr(j, 'round_lim', 3) == 1 for j in c.jumpers)
 
 
-def do_prefix(ctx, bibs, hist, draw, c=None, log_only=False):
+def do_prefix(ctx, bibs, hist, draw, c=None, log_only=False, float_heights=False):
     if draw is not None and draw(3) == 0:
         # start-list entries made with the optional keywords (names, team, category, jumping order, guest flag): no rule
         # mentions them, so the competition, its log replay, its card and its interleavings are held to the same clauses
@@ -246,6 +254,9 @@ def do_prefix(ctx, bibs, hist, draw, c=None, log_only=False):
     case = {'kind': 'history', 'bibs': list(bibs), 'calls': [hjsearch.enc(x) for x in hist]}
     if log_only:
         case['log_only'] = True
+    if float_heights:
+        case['float_heights'] = True          # the bar heights are handed over as floats (callers do; the library's tests do)
+        c = None
     stats = {}
     ctx.count()
     vs = examine(case, draw, stats)
@@ -298,8 +309,11 @@ def play_and_check(ctx, draw):
         elif status.startswith('truncated:') and not vs:
             cut.append(status)
     ib = draw(8) == 0          # numbers as bibs (start lists usually use them)
-    p = hjplay.random_play(draw, on_call, noise=12, nmin=1, lenient=True, int_bibs=ib)
+    fh = draw(5) == 0          # bar heights as floats on 1 cm / 5 cm steps
+    p = hjplay.random_play(draw, on_call, noise=12, nmin=1, lenient=True, int_bibs=ib, float_heights=fh)
     ctx.label('play')
+    if fh:
+        ctx.label('play-float-heights')
     if ib:
         ctx.label('play-number-bibs')
     if cut:
@@ -308,10 +322,10 @@ def play_and_check(ctx, draw):
         calls = [('add', b) for b in p.m.order] + list(p.all_calls)
         for k in range(30):
             call = hjsearch.tail_call(p.c, list(p.m.order), draw)
-            hjimpl.apply(p.c, call)
+            hjimpl.apply(p.c, call, fh)
             calls.append(call)
             if k in (9, 29):
-                do_prefix(ctx, p.m.order, calls, draw, log_only=True)
+                do_prefix(ctx, p.m.order, calls, draw, log_only=True, float_heights=fh)
         ctx.label('play-continued-beyond-the-model-(log-replay-only)')
     if not marks:
         return
@@ -326,7 +340,7 @@ def play_and_check(ctx, draw):
     for _ in range(2):
         points.add(ends[draw(len(ends))])
     for k in sorted(points):
-        do_prefix(ctx, p.m.order, full[:k], draw)
+        do_prefix(ctx, p.m.order, full[:k], draw, float_heights=fh)
     if any(hjsearch.enc(c) for c in p.all_calls if c not in p.hist):
         ctx.label('play-with-refused-calls')
 
